@@ -61,7 +61,8 @@ Theorem C17_resolve_sound : forall u mm fuel ifuel ds F,
     (forall n, In n (map fst F) <-> exists k, Reach u mm rs k /\ provides u mm rs k n) /\
     NoDup (map n_mpath (map fst F)) /\
     (forall n, In n (map fst F) ->
-               root_selected rs (n_mpath n) = Some (snd n) \/ selected u rs (n_mpath n) = Some (snd n)).
+               root_selected rs (n_mpath n) = Some (snd n) \/ selected u rs (n_mpath n) = Some (snd n)) /\
+    (rs = of_file mm ds \/ settled u rs).
 Proof. exact resolve_sound. Qed.
 Print Assumptions C17_resolve_sound.
 
@@ -79,6 +80,12 @@ Theorem C17_root_selected_is_max : forall rs mp v,
   forall n, In n (r_roots rs) -> n_mpath n = mp -> ver_le (snd n) v.
 Proof. exact root_selected_is_max. Qed.
 Print Assumptions C17_root_selected_is_max.
+
+(* updateRoots leaves every root at the version its module graph selects *)
+Theorem C17_update_roots_settled : forall u ifuel rs l add rs2,
+  update_roots u ifuel rs l add = Some (Some rs2) -> settled u rs2.
+Proof. exact update_roots_settled. Qed.
+Print Assumptions C17_update_roots_settled.
 
 (* ---- tidy writes a well-formed module file (sorted, one entry per module path, at
         most one default per base path) ------------------------------------------- *)
